@@ -500,3 +500,14 @@ Proof.
   replace (kw_k (it :: its') =? koff0 n') with false; [eauto|].
   symmetry. apply Z.eqb_neq. unfold koff0. rewrite hs64, ds64. lia.
 Qed.
+
+(* F19: the data bytes of sequence_length (item 51, array at 5120..5127) altered to a NaN
+   (7FF8 0000 0000 0000): `L[0] <= 0.0` is false for a NaN, the file loads with that length *)
+Theorem nan_sequence_length_refuted :
+  slice f0 5120 8 = [0; 0; 0; 0; 0; 0; 240; 63] /\
+  double_le_zero [0; 0; 0; 0; 0; 0; 248; 127] = false /\
+  match tsk_load_bytes false false (subst_many f0 [(5126, [248; 127])]) with
+  | Ok (tc', []) => zlist_eqb (tc_L tc') [0; 0; 0; 0; 0; 0; 248; 127]
+  | _ => false
+  end = true.
+Proof. vm_compute. repeat split; reflexivity. Qed.
